@@ -308,6 +308,16 @@ pub fn polluter(rng: &mut Rng) -> String {
 
 /// a text that parses differently depending on leaked keyword/directive state: the probe
 pub fn sensitive_probe(rng: &mut Rng) -> String {
+    // the preprocessor's own grammar consults the keyword set too (identifier after `ifdef / `undef)
+    if rng.chance(1, 3) {
+        let kw = *rng.pick(&["logic", "bit", "byte", "priority", "unique", "config", "generate", "always_comb", "interface"]);
+        return match rng.below(4) {
+            0 => format!("`ifdef {}\nwire a;\n`else\nwire b;\n`endif\nmodule m; endmodule\n", kw),
+            1 => format!("`ifndef {}\nwire c;\n`endif\nmodule m; endmodule\n", kw),
+            2 => format!("`undef {}\nmodule m; endmodule\n", kw),
+            _ => format!("`ifdef X\n`elsif {}\n`endif\nmodule m; endmodule\n", kw),
+        };
+    }
     match rng.below(6) {
         0 => "module m; wire logic; endmodule\n".into(),
         1 => "module m; reg bit, byte; endmodule\n".into(),
@@ -525,9 +535,9 @@ fn macro_arg(rng: &mut Rng, depth: u32) -> String {
 
 pub fn macro_program(rng: &mut Rng) -> String {
     let mut out = String::new();
-    let n = 2 + rng.below(8);
+    let n = 3 + rng.below(10);
     for _ in 0..n {
-        let k = rng.below(24);
+        let k = rng.below(26);
         let e = nl(rng);
         match k {
             0 | 1 => out.push_str(&format!("`define M{} {}{}", rng.below(4), macro_arg(rng, 1), e)),
@@ -568,7 +578,20 @@ pub fn macro_program(rng: &mut Rng) -> String {
             19 => out.push_str(&format!("`pragma protect {}{}", ident(rng), e)),
             20 => out.push_str(&format!("\\esc{}id  `M{} \"str `M{} \\\" x\" /* c `M1 */ // `M2{}", rng.below(9), rng.below(4), rng.below(4), e)),
             21 => out.push_str(&format!("`{}{}", rng.pick(&["resetall", "celldefine", "endcelldefine", "undefineall", "nounconnected_drive", "unconnected_drive pull1", "default_nettype none"]), e)),
-            22 => out.push_str(&format!("`include \"{}\"{}", rng.pick(&["included.svh", "f", "missing.svh", "top.sv"]), e)),
+            22 | 24 | 25 => match rng.below(4) {
+                // the file name comes out of a macro expansion: quoted, angle-bracketed, bare, empty or a lone delimiter
+                0 => {
+                    let body = *rng.pick(&["\"included.svh\"", "<included.svh>", "included.svh", "", "\"", "<", "\"\"", "<>", " ", "\"f", "f\""]);
+                    let k = rng.below(3);
+                    let k2 = if rng.chance(1, 6) { rng.below(3) } else { k };
+                    out.push_str(&format!("`define INC{} {}{}`include `INC{}{}", k, body, e, k2, e));
+                }
+                1 => {
+                    let arg = macro_arg(rng, 1);
+                    out.push_str(&format!("`define INCF(x) x{}`include `INCF({}){}", e, arg, e));
+                }
+                _ => out.push_str(&format!("`include \"{}\"{}", rng.pick(&["included.svh", "f", "missing.svh", "top.sv"]), e)),
+            },
             _ => out.push_str(&format!("`M{}(`M{}){}", rng.below(4), rng.below(4), e)),
         }
     }
@@ -594,4 +617,23 @@ pub fn same_len_variant(rng: &mut Rng, text: &str) -> String {
         _ => b'0',
     };
     String::from_utf8(b).unwrap_or_else(|_| text.to_string())
+}
+
+
+/// move a program under `prefix` (its own cwd-like directory and search directories) and stamp
+/// every file with `tag`, so that several projects can use the same header names with different content
+pub fn relocate(mut prog: PpProgram, prefix: &str, tag: &str) -> PpProgram {
+    let mv = |p: &str| -> String { format!("{}{}", prefix, p) };
+    for n in prog.nodes.iter_mut() {
+        if let VNode::File { path, bytes } = n {
+            *path = mv(path);
+            let t = String::from_utf8_lossy(&bytes.to_vec()).to_string();
+            let t = t.replace("localparam int L", &format!("localparam int {}_L", tag)).replace("`define M", &format!("`define {}X 1\n`define M", tag));
+            *bytes = Bytes::Text(format!("// project {}\n{}", tag, t));
+        }
+    }
+    prog.include_paths = prog.include_paths.iter().map(|p| mv(p)).collect();
+    prog.files = prog.files.iter().map(|p| mv(p)).collect();
+    prog.top = mv("/w/top.sv");
+    prog
 }
